@@ -93,6 +93,11 @@ class FrameParser(Parser):
             )
             if self.validate:
                 frame.validate()
+                # The payload has not been read yet, check the declared length
+                if frame.is_control and payload_length > 125:
+                    raise errors.ProtocolError(
+                        "control frames must be <= 125 bytes in length"
+                    )
 
             if frame.is_text:
                 self._is_text = True
